@@ -153,6 +153,7 @@ type HoleInfo struct {
 
 // Explorer carries the per-path symbolic state.
 type Explorer struct {
+	nParse int // time.Parse calls approximated on this path (names their symbols)
 	sv       *Solver
 	pool     *Pool
 	Script   []int
